@@ -52,7 +52,7 @@ def rule_sweep_blocks(k):
     per = (len(pats) + SWEEP_TASKS - 1) // SWEEP_TASKS
     out = []
     for pi in range(k * per, min(len(pats), (k + 1) * per)):
-        for variant in range(3):
+        for variant in range(4):
             r = random.Random(pi * 7 + variant)
             g = B.Gen(r, {"pseudo": False, "bait": 0})
             g.h = 4
@@ -61,7 +61,7 @@ def rule_sweep_blocks(k):
             def inst(t):
                 if t[0] == "ph":
                     if t[1] not in subs:
-                        subs[t[1]] = ("slot", r.randrange(0, 4)) if variant < 2 else ("const", r.choice([0, 1, 2, 0xff, (1 << 256) - 1, 1 << 255]))
+                        subs[t[1]] = ("slot", r.randrange(0, 4)) if variant != 2 else ("const", r.choice([0, 1, 2, 0xff, (1 << 256) - 1, 1 << 255]))
                     return subs[t[1]]
                 if t[0] == "op":
                     return ("op", t[1], [inst(c) for c in t[2]])
@@ -69,6 +69,9 @@ def rule_sweep_blocks(k):
             g.compile(inst(pats[pi]))
             if variant == 1:
                 g.items += [("SWAP1", None), ("POP", None)]
+            if variant == 3:
+                # the simplified term used twice by one instruction
+                g.items += [("DUP1", None), (r.choice(["ADD", "MUL", "SUB", "LT"]), None)]
             tail = r.choice([[], [("DUP2", None), ("ADD", None)], [("PUSH", "0"), ("MSTORE", None)], [("ISZERO", None)]])
             out.append(g.items + tail + [("PUSH", "%x" % (pi + 1)), ("JUMP", None)])
     return out
